@@ -26,14 +26,15 @@ from engine.tlc import MachineryError, mktemp, parse_dot, require_clean, run_tlc
 # ====================================================================================
 # Part A - application life cycle
 # ====================================================================================
-DEVS = ["SetupInTry", "UnfrozenCleansSubs", "CleanupCollects", "ShutdownContained"]
+DEVS = ["SetupInTry", "UnfrozenCleansSubs", "CleanupCollects", "ShutdownContained", "RunAppCatchesBase"]
 # The code as it is: FALSE = the deviation is present in /repo.  When a fix is committed flip the constant here
 # (the as-coded model run and the prediction used by the refinement clause follow); until then the check only
 # reports DRIFT 'callback-order' for the fixed behaviour.  C20_FIXED=name,name overrides for experiments.
 # All six deviations found on the original tree were repaired by `fix:` commits in /repo (see
 # known_findings.json), so the code as it is now equals the ideal design.
 _FIXED = {x for x in os.environ.get(
-    "C20_FIXED", "SetupInTry,UnfrozenCleansSubs,CleanupCollects,ShutdownContained,CloseIdleAtOnce,CancelLostConnHandler"
+    "C20_FIXED", "SetupInTry,UnfrozenCleansSubs,CleanupCollects,ShutdownContained,RunAppCatchesBase,"
+                 "CloseIdleAtOnce,CancelLostConnHandler"
 ).split(",") if x}
 CODE_AS_IS = {d: d in _FIXED for d in DEVS}
 DEV_CLAUSE = {
@@ -41,13 +42,16 @@ DEV_CLAUSE = {
     "UnfrozenCleansSubs": "SubAppContextNotExitedAfterFailedStartup",
     "CleanupCollects": "CleanupErrorSkipsLaterExits",
     "ShutdownContained": "ShutdownHandlerErrorSkipsCleanup",
+    "RunAppCatchesBase": "ExactlyOnceIffStarted",
 }
+BASE_MODES = ["cancel", "interrupt", "sysexit"]   # the three ways the driver realises a "base" start-up failure
 A_CFG = """SPECIFICATION {spec}
 CONSTANTS
   SetupInTry = {SetupInTry}
   UnfrozenCleansSubs = {UnfrozenCleansSubs}
   CleanupCollects = {CleanupCollects}
   ShutdownContained = {ShutdownContained}
+  RunAppCatchesBase = {RunAppCatchesBase}
   MaxStartFaults = {msf}
   Entries = {entries}
 {invs}"""
@@ -73,42 +77,72 @@ ROOT_CTX = ("r1", "r2")
 SUB_CTX = ("s1", "s2")
 
 
-def build_app(init: dict, log: List[dict], kind: int) -> Any:
-    """Real Application tree R(r1, r2) + add_subapp S(s1, s2) with instrumented callbacks."""
+def build_app(init: dict, log: List[dict], kind: int, mode: str = "cancel", interrupt: Any = None) -> Any:
+    """Real Application tree R(r1, r2) + add_subapp S(s1, s2) with instrumented callbacks.
+
+    A failing step raises Boom (kind "exc") or, for kind "base", a BaseException that is not an Exception:
+      start-up steps, mode "cancel"    the step raises asyncio.CancelledError itself
+                      mode "interrupt" the step suspends inside its start-up code and interrupt() makes the
+                                       outside world cancel the main task (run_app: GracefulExit arrives)
+                      mode "sysexit"   the step raises a SystemExit subclass (web.GracefulExit)
+      shutdown / cleanup steps         the step raises asyncio.CancelledError
+    """
     from aiohttp import web
 
     fail_start, fail_shut, fail_clean = set(init["failStart"]), set(init["failShut"]), set(init["failClean"])
+    start_kind, clean_kind = init.get("startKind", "exc"), init.get("cleanKind", "exc")
 
-    def ev(k: str, n: str) -> None:
-        log.append({"ev": k, "n": n})
+    def ev(k: str, n: str, x: str = "") -> None:
+        log.append({"ev": k, "n": n, "k": x})
 
-    def enter(name: str) -> None:
+    async def fail_startup(fail_ev: str, name: str) -> None:
+        if start_kind == "exc":
+            ev(fail_ev, name, "exc")
+            raise Boom("start-up " + name)
+        if mode == "sysexit":
+            ev(fail_ev, name, "base")
+            raise web.GracefulExit()
+        if mode == "interrupt" and interrupt is not None:
+            try:
+                interrupt()                       # ... arrives while this step is suspended
+                await asyncio.Event().wait()
+            finally:
+                ev(fail_ev, name, "base")
+            raise MachineryError("interrupted start-up step was resumed normally")
+        ev(fail_ev, name, "base")
+        raise asyncio.CancelledError()
+
+    def fail_teardown(fail_ev: str, name: str) -> None:
+        ev(fail_ev, name, clean_kind)
+        if clean_kind == "exc":
+            raise Boom("teardown " + name)
+        raise asyncio.CancelledError()
+
+    async def enter(name: str) -> None:
         ev("enter_begin", name)
         if name in fail_start:
-            ev("enter_fail", name)
-            raise Boom("enter " + name)
+            await fail_startup("enter_fail", name)
         ev("enter_done", name)
 
-    def leave(name: str) -> None:
+    async def leave(name: str) -> None:
         ev("exit_begin", name)
         if name in fail_clean:
-            ev("exit_fail", name)
-            raise Boom("exit " + name)
+            fail_teardown("exit_fail", name)
         ev("exit_done", name)
 
     def mkctx(name: str, k: int) -> Any:
         if k == 0:        # plain async generator function (wrapped by CleanupContext itself)
             async def agen(app: Any) -> Any:
-                enter(name)
+                await enter(name)
                 yield
-                leave(name)
+                await leave(name)
             return agen
         if k == 1:        # already an asynccontextmanager
             @contextlib.asynccontextmanager
             async def acm(app: Any) -> Any:
-                enter(name)
+                await enter(name)
                 yield
-                leave(name)
+                await leave(name)
             return acm
 
         class CM(contextlib.AbstractAsyncContextManager):   # hand-written context manager
@@ -117,11 +151,11 @@ def build_app(init: dict, log: List[dict], kind: int) -> Any:
 
             async def __aenter__(self) -> None:
                 await asyncio.sleep(0)
-                enter(name)
+                await enter(name)
 
             async def __aexit__(self, *exc: Any) -> None:
                 await asyncio.sleep(0)
-                leave(name)
+                await leave(name)
         return CM
 
     def handler(name: str, fails: set) -> Any:
